@@ -124,19 +124,26 @@ def classify(pid, viol, known):
     return None
 
 
+def out_root():
+    """Where evidence/ and replays/ are written: /verif, unless VERIF_OUT names a scratch directory
+    (used when the checks are pointed at a scratch copy of the repository, e.g. tools/eval_seed.py,
+    so that such runs never touch the evidence of /repo itself)."""
+    return os.environ.get("VERIF_OUT") or env.VERIF
+
+
 def write_replay(pid, case, viol):
-    d = os.path.join(env.VERIF, "replays", pid)
+    d = os.path.join(out_root(), "replays", pid)
     os.makedirs(d, exist_ok=True)
     name = "%s-%s.json" % (viol.get("cls", "violation"), digest([case, viol.get("msg")]))
     path = os.path.join(d, name)
     with open(path, "w") as fh:
         json.dump({"property": pid, "case": case, "violation": viol,
                    "seed": env.seed(), "repo": env.REPO}, fh, indent=1, default=str)
-    return os.path.relpath(path, env.VERIF)
+    return os.path.relpath(path, out_root())
 
 
 def clear_replays(pid):
-    d = os.path.join(env.VERIF, "replays", pid)
+    d = os.path.join(out_root(), "replays", pid)
     if os.path.isdir(d):
         shutil.rmtree(d, ignore_errors=True)
 
@@ -241,8 +248,8 @@ def main_check(pid, tier, replay=None, out=print):
         "violations": nviol,
     }
     if not replay:
-        os.makedirs(os.path.join(env.VERIF, "evidence"), exist_ok=True)
-        with open(os.path.join(env.VERIF, "evidence", "%s.json" % pid), "w") as fh:
+        os.makedirs(os.path.join(out_root(), "evidence"), exist_ok=True)
+        with open(os.path.join(out_root(), "evidence", "%s.json" % pid), "w") as fh:
             json.dump(ev, fh, indent=1, default=str)
     if unlisted:
         return EXIT_VIOLATED
